@@ -155,8 +155,15 @@ def make_task():
             return c04_pick()(data=vs)
         raise ValueError(layout)
 
+    @task(name="c04_tree", namespace="verif_c04", version="1")
+    def c04_tree(pop, value):
+        # (re)creates a tree with symbolic links and returns the Dir / FileSet over it
+        EXEC_LOG.append("tree")
+        fv.build_population(pop)
+        return fv.tree_value(*value)
+
     TASKS.update(make=c04_make, publish=c04_publish, disturb=c04_disturb, main=c04_main, consume=c04_consume,
-                 produce=c04_produce)
+                 produce=c04_produce, tree=c04_tree)
     _task = c04_make
     return _task
 
@@ -278,6 +285,58 @@ def judge_exprflow(run):
         if f["result"] != f["disk"]:
             bad.append((f"expression-result:stale-result:{run['layout']}",
                         f"run {idx} returned {str(f['result'])[:120]} but the disk holds {str(f['disk'])[:120]}", idx))
+    return bad
+
+
+def run_treeflow(pop, value, only=None):
+    """a cached task returns a Dir / FileSet over a tree with symbolic links; every file that iterating the
+    result yields is changed in turn between runs (rewrite / truncate / delete / recreate)"""
+    from redun import Scheduler
+    from redun.config import Config
+    import logging
+    make_task()
+    value = tuple(value)
+    with fv.tempcwd("rv_c04t_"):
+        logging.getLogger("redun").setLevel(logging.CRITICAL)
+        s = Scheduler(config=Config({"backend": {"db_uri": "sqlite:///:memory:"}}))
+        s.logger.disabled = True
+        s.load()
+        facts = []
+
+        def run(member, how):
+            n0 = len(EXEC_LOG)
+            err, res = None, None
+            try:
+                res = s.run(TASKS["tree"](pop, value))
+            except Exception as e:  # noqa
+                err = repr(e)
+            facts.append({"member": member, "mutation": how, "executed": EXEC_LOG[n0:], "error": err})
+            return res
+        res = run(None, "first run")
+        members = sorted(f.path for f in res) if res is not None else []
+        run(None, "no change")
+        for i, m in enumerate(members):
+            how = fv.MUTATIONS[i % len(fv.MUTATIONS)]
+            if only is not None and (m, how) != tuple(only):
+                continue
+            if how == "recreate" and value[1] == "FContent":
+                how = "rewrite"          # same bytes leave a content hash unchanged
+            if not os.path.lexists(m) or not fv.mutate_member(m, how):
+                continue
+            run(m, how)
+        return {"population": pop, "value": list(value), "members": members, "facts": facts}
+
+
+def judge_treeflow(run):
+    bad = []
+    cname, arg = run["value"][0], run["value"][3]
+    for idx, f in enumerate(run["facts"]):
+        if f["error"] is not None:
+            bad.append((f"symlink-tree:run-raises:{f['error']}"[:200], f"run {idx} raised {f['error']}", f))
+        elif f["member"] is not None and "tree" not in f["executed"]:
+            bad.append((f"symlink-tree:replayed-although-member-changed:{cname}({arg}):{run['population']}",
+                        f"the cached {cname}({arg}) lists {f['member']}; after {f['mutation']} of that file the "
+                        f"result was replayed instead of re-executing the task", f))
     return bad
 
 
@@ -1036,6 +1095,20 @@ class Check(PropertyCheck):
             self.count(repr((sp, layout, ops)))
         return self.eruns
 
+    def treeflows(self):
+        if hasattr(self, "truns"):
+            return self.truns
+        V = {v[0] + v[3]: v for v in fv.TREE_VALUES}
+        todo = [(p, V["Dird0"]) for p in ("linked_subdir", "linked_file", "outside_nested", "broken_links")]
+        todo += [("linked_subdir", V["ContentDird0"]), ("outside_nested", V["FileSetd0/**"])]
+        if self.tier != "quick":
+            todo = [(p, v) for p in fv.POPULATIONS for v in fv.TREE_VALUES]
+        self.truns = [run_treeflow(p, v) for p, v in todo]
+        for r in self.truns:
+            self.stat("symlink_tree_workflow", f"{r['population']}:{r['value'][0]}({r['value'][3]})", len(r["facts"]))
+            self.count(repr((r["population"], r["value"])))
+        return self.truns
+
     def correspond(self):
         hruns = self.histories()
         iruns = self.interleavings()
@@ -1145,6 +1218,17 @@ class Check(PropertyCheck):
                 self.findings.append(Finding(key, what, {"kind": "exprflow", "spec": repr(run["spec"]),
                                                          "layout": run["layout"], "ops": repr(run["ops"][:upto + 1]),
                                                          "run": idx, "what": what}))
+        for run in self.treeflows():
+            nruns += len(run["facts"])
+            for key, what, f in judge_treeflow(run):
+                if key in keys:
+                    continue
+                keys.add(key)
+                self.findings.append(Finding(key, what, {"kind": "treeflow", "population": run["population"],
+                                                         "value": run["value"], "member": f["member"],
+                                                         "mutation": f["mutation"], "tree": repr(fv.POPULATIONS[run["population"]]),
+                                                         "what": what}))
+        self.stat("oracle", "symlink_tree_workflows", len(self.treeflows()))
         if self.ev is not None and not (self.ev["task_walks_kwargs"] and self.ev["simple_walks_kwargs"]) and \
                 not any(k.startswith("expression-result:") for k in keys):
             self.ob("tie-witness", "expression validity walk classified as positional-arguments-only: a workflow whose "
@@ -1173,6 +1257,18 @@ class Check(PropertyCheck):
                 print("replay: still fails:", bad[0][0], "-", bad[0][1])
                 return 1
             print("replay: the property holds on this history now")
+            return 0
+        if r.get("kind") == "treeflow":
+            run = run_treeflow(r["population"], r["value"], only=(r["member"], r["mutation"]) if r.get("member") else None)
+            print("   tree:", fv.POPULATIONS[r["population"]], "| members listed by the result:", run["members"])
+            for f in run["facts"]:
+                print("   ", f["mutation"], f["member"] or "", "->", "raised " + f["error"] if f["error"] else
+                      ("task re-executed" if "tree" in f["executed"] else "cached result replayed"))
+            bad = judge_treeflow(run)
+            if bad:
+                print("replay: still fails:", bad[0][0], "-", bad[0][1])
+                return 1
+            print("replay: the property holds on this tree now")
             return 0
         if r.get("kind") == "exprflow":
             run = run_exprflow(eval(r["spec"]), r["layout"], eval(r["ops"]))
